@@ -16,10 +16,12 @@ if go build ./... && go test -vet=off -count=1 ./emitter/ ./lexer/ ./parser/ >/t
 cp $D/demo_test.go $W/$PKG/zz_seed_demo_test.go
 if go test -vet=off -count=1 ./$PKG/ >/tmp/seed.demo.log 2>&1; then echo "CONFIRM demo fails with patch: NO (passes)"; else echo "CONFIRM demo fails with patch: yes"; fi
 cd /verif
+rm -rf /tmp/evidence.keep; cp -r /verif/evidence /tmp/evidence.keep   # keep the evidence of the clean tree
 git -C /repo apply $D/patch.diff || { echo "patch does not apply to /repo"; exit 2; }
 for id in "$@"; do
   ./run.sh $id quick > /tmp/seed.run.$id.log 2>&1; rc=$?
   echo "CHECK $id quick exit=$rc $(grep -c '^VIOLATION' /tmp/seed.run.$id.log) violation lines; $(grep -m1 'clause:' /tmp/seed.run.$id.log)"
 done
 git -C /repo checkout -q -- .
+rm -rf /verif/evidence; mv /tmp/evidence.keep /verif/evidence
 rm -rf /verif/replays
